@@ -975,3 +975,75 @@ func init() {
 	reg("C15.many", checkC15Many)
 	reg("C15.absent", checkC15Absent)
 }
+
+// ---- compiled data registered over a name that is registered already ------------------------------------------
+
+type C15CompiledCase struct {
+	Route int `json:"route"` // 0 LoadFromCompiledData, 1 RegisterCompiledTemplate
+	Where int `json:"where"` // 0 the same engine, 1 a second engine that has the name already
+}
+
+// checkC15Compiled: registering compiled data is a registration: Load and Render use its source
+// from then on, whatever was registered under the name before and however recently.
+func checkC15Compiled(c C15CompiledCase) error {
+	a := twig.New()
+	if err := a.RegisterString("n", "first {{ 1 + 1 }}"); err != nil {
+		return fmt.Errorf("harness: %v", err)
+	}
+	comp, err := a.CompileTemplate("n")
+	if err != nil {
+		return fmt.Errorf("harness: CompileTemplate: %v", err)
+	}
+	data, err := twig.SerializeCompiledTemplate(comp)
+	if err != nil {
+		return fmt.Errorf("harness: %v", err)
+	}
+	target := a
+	if c.Where%2 == 1 {
+		target = twig.New()
+	}
+	if err := target.RegisterString("n", "second {{ 2 + 2 }}"); err != nil {
+		return fmt.Errorf("harness: %v", err)
+	}
+	if r := render(target, "n", nil); r.Failed() || r.Out != "second 4" {
+		return fmt.Errorf("after RegisterString: %v", r)
+	}
+	if c.Route%2 == 0 {
+		err = target.LoadFromCompiledData(data)
+	} else {
+		err = target.RegisterCompiledTemplate(comp)
+	}
+	if err != nil {
+		return fmt.Errorf("registering the compiled template failed: %v", err)
+	}
+	for i := 0; i < 2; i++ {
+		if r := render(target, "n", nil); r.Failed() || r.Out != "first 2" {
+			return fmt.Errorf("the name was registered from source (\"second ..\"), then from compiled data of \"first {{ 1 + 1 }}\" (%s, %s): Render gives %v, want \"first 2\"", []string{"LoadFromCompiledData", "RegisterCompiledTemplate"}[c.Route%2], []string{"same engine", "another engine"}[c.Where%2], r)
+		}
+	}
+	// and a source registration after it wins again
+	if err := target.RegisterString("n", "third"); err != nil {
+		return fmt.Errorf("harness: %v", err)
+	}
+	if r := render(target, "n", nil); r.Failed() || r.Out != "third" {
+		return fmt.Errorf("after a further RegisterString: %v, want \"third\"", r)
+	}
+	return nil
+}
+
+func TestC15Compiled(t *testing.T) {
+	r := NewRec(t, "C15", "exhaustive: {LoadFromCompiledData, RegisterCompiledTemplate} x {same engine, another engine}: a name registered from source, then from compiled data made earlier, then from source again; oracle: Render uses the most recent registration each time; all cases non-trivial")
+	defer r.Flush()
+	r.SetExhaustive()
+	for route := 0; route < 2; route++ {
+		for where := 0; where < 2; where++ {
+			c := C15CompiledCase{Route: route, Where: where}
+			r.Case(fmt.Sprint(route, where), true, c)
+			if err := checkC15Compiled(c); err != nil {
+				r.FailEnum(t, "C15.compiled", c, err)
+			}
+		}
+	}
+}
+
+func init() { reg("C15.compiled", checkC15Compiled) }
